@@ -193,6 +193,10 @@ func (p *PsUnpacker) FeedRtpBody(rtpBody []byte, rtpts uint32) error {
 	for p.buf.Len() != 0 {
 		rb := p.buf.Bytes()
 		i := 0
+		if len(rb) < 4 {
+			// the rtp packet ends inside a start code, wait for the next packet
+			return nil
+		}
 		code := bele.BeUint32(rb[i:])
 		i += 4
 
@@ -343,6 +347,11 @@ func (p *PsUnpacker) parsePsm(rb []byte, index int) int {
 
 func (p *PsUnpacker) parseAvStream(code int, rtpts uint32, rb []byte, index int) int {
 	i := index
+
+	if len(rb)-i < 2 {
+		// the rtp packet ends inside PES_packet_length, wait for the next packet
+		return -1
+	}
 
 	// 注意，由于length是两字节，所以存在一个帧分成多个pes包的情况
 	length := int(bele.BeUint16(rb[i:]))
@@ -495,6 +504,10 @@ func parsePackHeader(rb []byte, index int) int {
 	// skip stuffing
 	l := int(rb[i] & 0x7)
 	i += 1 + l
+	if len(rb) < i {
+		// the rtp packet ends inside the stuffing bytes, wait for the next packet
+		return -1
+	}
 
 	return i - index
 }
